@@ -925,9 +925,6 @@ fn main() {
             k /= toks.len();
         }
         let mut l = Local::default();
-        if std::env::var_os("C09_TRACE").is_some() {
-            eprintln!("tok {ix} {s:?}");
-        }
         let mut rng = Rng::stream(run.seed, ix as u64 ^ 0x7001);
         let n = s.len();
         let mut scheds = vec![Sched { label: "every-1", ch: Chunking::Every(1) }];
